@@ -78,7 +78,7 @@ CHECKS = {
  'C20': dict(
    technique='TLA+ model of asyncio.Lock + the read-write lock checked by TLC; every edge of the state graph replayed on the real lock; recorded executions validated by TLC trace specs',
    level_text='TLC explores every interleaving and one cancellation at any step for 3 tasks x programs of <=2 acquisitions (exclusion, counter exactness, clean at end, deadlock freedom, progress under fairness); every edge of that graph is executed on the real lock object with the full abstract state compared after each step, and every recorded execution (replays + seeded random walks) is judged by TLC against the observer spec whose guards are the clauses of the property.',
-   level_note='Trusted: TLC; the model of CPython 3.12 asyncio.Lock (bound to the real object by the step-wise state comparison); tasks switch only at suspensions. The threading variant of the lock is not exercised. FileLock assumes holders do not outlive the expiration.',
+   level_note='Trusted: TLC; the model of CPython 3.12 asyncio.Lock (bound to the real object by the step-wise state comparison); tasks switch only at suspensions. The threading variant of the lock is not exercised. FileLock: FileLock.tla checked for asyncio tasks (stat/unlink/create atomic) with a stale lock file at start, one fault (cancellation or exception inside the section) and retry exhaustion; its graph edges and seeded walks run on real FileLock objects on a scratch file with virtual time. Assumes holders do not outlive the expiration; the multi-PROCESS configuration (FileLock_procs.cfg), in which TLC finds an expired-lock unlink race, is outside the property (tasks) and documented only.',
    design_ref='DESIGN.md section 7 C20'),
 }
 
